@@ -149,6 +149,57 @@ def make_replicas(d, cov_type):
                       bounds=f"2 points (weights 2,1) vs 3 points (weights 1,1,1), d={d}, K=2", theory="QF_NRA", timeout_ms=30000)
 
 
+def make_mstep_fp(n=2):
+    """bit-precise: the 'full' covariance of one component in d=1 is never negative, for ALL doubles in a wide range
+    (catastrophic cancellation in a moment-difference formula would show up here)."""
+    from vf.engine.fp import SymFP, FP, fpval
+    import z3 as _z3
+
+    def harness(ctx: PathCtx):
+        def var(name, lo, hi):
+            t = ctx.register(name, _z3.FP(name, FP))
+            ctx.assume(_z3.And(_z3.fpGEQ(t, fpval(lo)), _z3.fpLEQ(t, fpval(hi))))
+            return SymFP(t)
+        X = [[var(f"x{i}", -1e8, 1e8)] for i in range(n)]
+        R = [[var(f"r{i}", 0.0, 1.0)] for i in range(n)]
+        w = [var(f"w{i}", 0.0, 1.0) for i in range(n)]
+        tot = R[0][0] * w[0]
+        for i in range(1, n):
+            tot = tot + R[i][0] * w[i]
+        ctx.assume(_z3.fpGEQ(tot.z, fpval(1e-3)))  # component of non-negligible mass
+        gm = GaussianMixture(n_components=1, covariance_type="full")
+        weights, means, covs = run_mstep(gm, sarr(X), sarr(R), sarr(w))
+        c = covs[0][0][0]
+        ctx.observe("cov", c.z)
+        ctx.check("variance-nonnegative(all doubles)", _z3.fpGEQ(c.z, fpval(0.0)))
+        return None
+
+    def replay(m, label, v):
+        X = np.array([[float(m[f"x{i}"])] for i in range(n)])
+        R = np.array([[float(m[f"r{i}"])] for i in range(n)])
+        w = np.array([float(m[f"w{i}"]) for i in range(n)])
+        gm = GaussianMixture(n_components=1, covariance_type="full")
+        _, means, covs = gm._m_step(X, R, w)
+        c = float(covs[0][0][0])
+        return {"reproduced": not (c >= 0), "signature": "m_step:full:negative-variance", "payload": {"X": X.tolist(), "resp": R.tolist(), "w": w.tolist(), "cov": c},
+                "what": f"GaussianMixture._m_step on X={X.ravel().tolist()}, resp={R.ravel().tolist()}, w={w.tolist()} gives variance {c!r} < 0"}
+
+    def validate(wit, ret):
+        X = np.array([[float(wit[f"x{i}"])] for i in range(n)])
+        R = np.array([[float(wit[f"r{i}"])] for i in range(n)])
+        w = np.array([float(wit[f"w{i}"]) for i in range(n)])
+        gm = GaussianMixture(n_components=1, covariance_type="full")
+        _, _, covs = gm._m_step(X, R, w)
+        import struct
+        a, b = float(covs[0][0][0]), float(wit["obs:cov"])
+        same = struct.pack("<d", a) == struct.pack("<d", b)
+        return (same, f"numpy {a!r} vs bit-precise encoding {b!r}")
+
+    return Obligation(f"mstep-fp-n{n}-d1", harness, replay=replay, validate=validate, encodes=[GaussianMixture._m_step, GaussianMixture._compute_covariances],
+                      bounds=f"n={n} points, d=1, K=1: all doubles x in [-1e8,1e8], responsibilities and sample weights in [0,1], mass >= 1e-3 (QF_FP)",
+                      stubs=["np.zeros -> object arrays"], theory="QF_FP", timeout_ms=240000)
+
+
 # ------------------------------------------------------------------ hierarchical control logic
 
 
@@ -224,6 +275,7 @@ def make_hier(n, max_iterations, normalize, contiguous=False):
 
 
 def obligations(tier):
+    # make_mstep_fp (bit-precise variance >= 0) is not scheduled: the QF_FP query with multipliers/dividers did not finish in 290 s
     obs = [make_mstep(2, 1, 2, "full"), make_mstep(2, 2, 2, "diag"), make_mstep(2, 2, 1, "full"), make_mstep(3, 1, 1, "full"), make_replicas(1, "full"),
            make_hier(6, 1, True), make_hier(5, 2, False), make_hier(8, 2, False, contiguous=True)]
     if tier == "thorough":
